@@ -5,6 +5,7 @@ package main
 import (
 	"fmt"
 	"go/types"
+	"sort"
 	"strings"
 
 	"golang.org/x/tools/go/ssa"
@@ -135,9 +136,7 @@ func (e *Enc) markSiteHit(fr *Frame) {
 
 func (e *Enc) assertSite(fr *Frame, st *Site, ctx *ExprCtx) {
 	if st.Nth >= 0 {
-		k := e.siteSeen[st]
-		e.siteSeen[st] = k + 1
-		if k != st.Nth {
+		if e.siteOrdinal(st, e.curSiteInstr) != st.Nth {
 			return
 		}
 	}
@@ -172,6 +171,7 @@ func (e *Enc) siteCall(fr *Frame, cs *callSite, argsEvaluated bool) {
 				ctx.callArgs = append(ctx.callArgs, TV{V: a, Typ: cs.argTyps[k]})
 			}
 		}
+		e.curSiteInstr = cs.instr
 		e.assertSite(fr, st, ctx)
 	}
 }
@@ -200,16 +200,17 @@ func (e *Enc) closureFnSites(fr *Frame, fn *ssa.Function) {
 		if st.Kind != "call" {
 			continue
 		}
-		if e.fnContainsCall(fn, st, 0) {
+		if in := e.fnContainsCall(fn, st, 0); in != nil {
 			e.closureSiteDone[fn] = true
+			e.curSiteInstr = in
 			e.assertSite(fr, st, e.sitePointCtx(fr))
 		}
 	}
 }
 
-func (e *Enc) fnContainsCall(fn *ssa.Function, st *Site, depth int) bool {
+func (e *Enc) fnContainsCall(fn *ssa.Function, st *Site, depth int) ssa.Instruction {
 	if depth > 3 {
-		return false
+		return nil
 	}
 	for _, b := range fn.Blocks {
 		for _, in := range b.Instrs {
@@ -217,16 +218,16 @@ func (e *Enc) fnContainsCall(fn *ssa.Function, st *Site, depth int) bool {
 			case ssa.CallInstruction:
 				cs := e.buildCallSite(nil, in, x.Common())
 				if e.siteMatchesCall(st, cs) {
-					return true
+					return in
 				}
 			case *ssa.MakeClosure:
-				if e.fnContainsCall(x.Fn.(*ssa.Function), st, depth+1) {
-					return true
+				if r := e.fnContainsCall(x.Fn.(*ssa.Function), st, depth+1); r != nil {
+					return r
 				}
 			}
 		}
 	}
-	return false
+	return nil
 }
 
 // a plain function value (no free variables) used as a value is a *ssa.Function operand, not a
@@ -271,6 +272,7 @@ func (e *Enc) siteAlloc(fr *Frame, x *ssa.Alloc, et types.Type) {
 		if j := strings.LastIndex(st.Target, "."); j >= 0 && st.Target[:j] != pkg {
 			continue
 		}
+		e.curSiteInstr = x
 		e.assertSite(fr, st, e.sitePointCtx(fr))
 	}
 }
@@ -297,6 +299,7 @@ func (e *Enc) siteStore(fr *Frame, x *ssa.Store, pv *PtrV, et types.Type) {
 		ctx := e.sitePointCtx(fr)
 		sv := TV{V: e.val(fr, x.Val), Typ: x.Val.Type()}
 		ctx.storeVal = &sv
+		e.curSiteInstr = x
 		e.assertSite(fr, st, ctx)
 	}
 }
@@ -313,6 +316,7 @@ func (e *Enc) siteMake(fr *Frame, x *ssa.MakeSlice, ln, cp T) {
 		ctx := e.sitePointCtx(fr)
 		ctx.callArgNames = []string{"len", "cap"}
 		ctx.callArgs = []TV{{V: ln}, {V: cp}}
+		e.curSiteInstr = x
 		e.assertSite(fr, st, ctx)
 	}
 }
@@ -327,12 +331,13 @@ func (e *Enc) siteMapUpdate(fr *Frame, x *ssa.MapUpdate) {
 			continue
 		}
 		// target: name of the map variable/field
-		if dynCalleeName(x.Map) != lastName(st.Target) {
+		if dynCalleeName(x.Map) != lastName(st.Target) && sourceNameOf(fr.fn, x.Map) != lastName(st.Target) {
 			continue
 		}
 		ctx := e.sitePointCtx(fr)
 		ctx.callArgNames = []string{"key", "val"}
 		ctx.callArgs = []TV{{V: e.val(fr, x.Key), Typ: x.Key.Type()}, {V: e.val(fr, x.Value), Typ: x.Value.Type()}}
+		e.curSiteInstr = x
 		e.assertSite(fr, st, ctx)
 	}
 }
@@ -418,7 +423,12 @@ func (e *Enc) atReturn(fr *Frame, x *ssa.Return, vs []Val) {
 		hit := e.get(fr.curState, "ghost:sitehit", SBool)
 		alts := []T{hit}
 		for _, exc := range e.fc.CoverExc {
-			rv := e.retVals[lastName(exc)]
+			var rv []TV
+			for k := range e.callsNamed(lastName(exc)) {
+				if tv, ok := e.retValue(lastName(exc), k); ok {
+					rv = append(rv, tv)
+				}
+			}
 			for _, r := range rv {
 				if r.Typ == nil {
 					continue
@@ -498,4 +508,102 @@ func (e *Enc) frameObligation(fr *Frame) {
 		g := T{"(forall ((|fx| Int)) " + body.S + ")", SBool}
 		e.addObligation("frame", k, fr.curReach, g, "only the declared locations of "+k+" change")
 	}
+}
+
+// sourceNameOf: the source-level variable name bound to an SSA value (via DebugRef), if any.
+func sourceNameOf(fn *ssa.Function, v ssa.Value) string {
+	for _, b := range fn.Blocks {
+		for _, in := range b.Instrs {
+			if d, ok := in.(*ssa.DebugRef); ok && d.X == v && !d.IsAddr {
+				if obj := d.Object(); obj != nil {
+					return obj.Name()
+				}
+			}
+		}
+	}
+	return ""
+}
+
+// siteOrdinal: position (in source order) of instr among the instructions of the top function and
+// its nested closures that match the site clause.
+func (e *Enc) siteOrdinal(st *Site, instr ssa.Instruction) int {
+	if instr == nil {
+		return -1
+	}
+	lst, ok := e.siteInstrs[st]
+	if !ok {
+		var visit func(fn *ssa.Function)
+		visit = func(fn *ssa.Function) {
+			for _, b := range fn.Blocks {
+				for _, in := range b.Instrs {
+					if e.siteMatchesInstr(st, in) {
+						lst = append(lst, in)
+					}
+				}
+			}
+			for _, a := range fn.AnonFuncs {
+				visit(a)
+			}
+		}
+		visit(e.fn)
+		sort.SliceStable(lst, func(i, j int) bool { return lst[i].Pos() < lst[j].Pos() })
+		e.siteInstrs[st] = lst
+	}
+	for i, in := range lst {
+		if in == instr {
+			return i
+		}
+	}
+	return -1
+}
+
+func (e *Enc) siteMatchesInstr(st *Site, in ssa.Instruction) bool {
+	switch st.Kind {
+	case "call":
+		ci, ok := in.(ssa.CallInstruction)
+		if !ok {
+			return false
+		}
+		if _, isGo := in.(*ssa.Go); isGo {
+			return false
+		}
+		return e.siteMatchesCall(st, e.buildCallSite(nil, in, ci.Common()))
+	case "store":
+		x, ok := in.(*ssa.Store)
+		if !ok {
+			return false
+		}
+		fa, ok := x.Addr.(*ssa.FieldAddr)
+		if !ok {
+			return false
+		}
+		stt := fa.X.Type().Underlying().(*types.Pointer).Elem()
+		_, tn := namedTypeName(stt)
+		fname := under(stt).(*types.Struct).Field(fa.Field).Name()
+		return st.Target == tn+"."+fname
+	case "alloc":
+		x, ok := in.(*ssa.Alloc)
+		if !ok {
+			return false
+		}
+		et := x.Type().Underlying().(*types.Pointer).Elem()
+		pkg, name := namedTypeName(et)
+		if name == "" || lastName(st.Target) != name {
+			return false
+		}
+		if j := strings.LastIndex(st.Target, "."); j >= 0 && st.Target[:j] != pkg {
+			return false
+		}
+		return true
+	case "mapupdate":
+		x, ok := in.(*ssa.MapUpdate)
+		if !ok {
+			return false
+		}
+		return dynCalleeName(x.Map) == lastName(st.Target) || sourceNameOf(in.Parent(), x.Map) == lastName(st.Target)
+	case "make":
+		_, ok := in.(*ssa.MakeSlice)
+		return ok
+	}
+	return false
 }
